@@ -80,6 +80,16 @@ void do_op(string op) {
   case "err":
     error("bomb " + implode(a[1..], " ") + "\n");
     break;
+  case "bomb":    // bomb <id> <how>: record and fail in one op
+    rec("U " + me() + " B" + a[1]);
+    switch (sizeof(a) > 2 ? a[2] : "err") {
+    case "typeerr": n = 1; n = n + (mixed)({ }); break;
+    case "forever": forever(); break;
+    case "deepforever": deep_forever(); break;
+    case "throw": throw("thrown " + a[1]); break;
+    default: error("bomb " + a[1] + "\n");
+    }
+    break;
   case "throw":
     throw("thrown " + implode(a[1..], " "));
     break;
